@@ -59,6 +59,19 @@ impl std::io::Write for SchedWriter {
             Err(()) => Err(std::io::Error::new(some_error_kind(self.written.len() + buf.len()), "injected")),
         }
     }
+    /// a NATIVE vectored write, as sockets, files and pipes have: accepts the scheduled number of bytes across
+    /// the buffers (a short vectored write may end in the middle of any of them)
+    fn write_vectored(&mut self, bufs: &[std::io::IoSlice<'_>]) -> std::io::Result<usize> {
+        if self.interrupts && self.rng.chance(1, 3) {
+            return Err(std::io::Error::new(std::io::ErrorKind::Interrupted, "try again"));
+        }
+        let all: Vec<u8> = bufs.iter().flat_map(|b| b.iter().copied()).collect();
+        match self.accept(&all) {
+            Ok(n) => Ok(n),
+            Err(()) if self.zero => Ok(0),
+            Err(()) => Err(std::io::Error::new(some_error_kind(self.written.len() + all.len()), "injected")),
+        }
+    }
     fn flush(&mut self) -> std::io::Result<()> {
         if self.flush_fails {
             return Err(std::io::Error::new(some_error_kind(self.written.len()), "injected flush failure"));
@@ -96,6 +109,10 @@ pub struct SchedReader {
     pub rng: Rng,
     pub whole: bool,
     pub one: bool,
+    /// the fault is TRANSIENT: the reader reports an error once (WouldBlock / TimedOut ... - any kind but
+    /// Interrupted) when it reaches `fault`, and keeps delivering data afterwards. `read_exact` must still
+    /// fail, so decoding must still report an error - never a value assembled around the gap
+    pub transient: bool,
 }
 impl SchedReader {
     fn deliver(&mut self, buf: &mut [u8]) -> Result<usize, ()> {
@@ -104,6 +121,9 @@ impl SchedReader {
         }
         if let Some(k) = self.fault {
             if self.pos >= k {
+                if self.transient {
+                    self.fault = None;
+                }
                 return Err(());
             }
         }
@@ -200,6 +220,112 @@ pub fn eval(ctx: &mut Ctx, op: &str, args: &[Sexp]) -> Option<String> {
                 }
             })
         }
+        "deseq" => {
+            // deseq <std|eio> <fault|none> <scratch> <sched> <hex-stream> <ty>*
+            // ONE Deserializer::from_flavor(IOReader::new(reader, scratch)) decodes several values in a row and is
+            // USED AGAIN after a value has failed (scratch exhausted, reader fault, malformed input), then
+            // finalized. Compared with the model up to the first error; afterwards the harness observes safety
+            // only: no panic, no write outside the scratch buffer (guard pages), borrowed data inside it and
+            // pairwise disjoint, the scratch handed back by finalize disjoint from every borrowed slot (C04 / C11)
+            let adapter = args.first()?.atom()?;
+            let fault = opt_num(args.get(1)?)?;
+            let scratch_len: usize = args.get(2)?.atom()?.parse().ok()?;
+            let sched: u64 = args.get(3)?.atom()?.parse().ok()?;
+            let stream = unhex(args.get(4)?.atom()?)?;
+            let mut tys = Vec::new();
+            for a in &args[5..] {
+                tys.push(DTy::from_sexp(a)?);
+            }
+            let mut scratch_pages = Pages::new(&vec![0xEEu8; scratch_len], true);
+            let sbase = scratch_pages.slice().as_ptr() as usize;
+            let rd = SchedReader { data: stream.clone(), pos: 0, fault, rng: Rng::new(sched), whole: sched == 0, one: sched == 1, transient: false };
+            fn slots_ok(slots: &[(usize, usize)], rest: Option<(usize, usize)>, sbase: usize, slen: usize) -> Option<String> {
+                let mut all: Vec<(usize, usize)> = slots.iter().copied().filter(|(_, l)| *l > 0).collect();
+                for (p, l) in &all {
+                    if *p < sbase || p + l > sbase + slen {
+                        return Some("borrowed data lies outside the scratch buffer".into());
+                    }
+                }
+                if let Some((p, l)) = rest {
+                    if l > 0 && (p < sbase || p + l > sbase + slen) {
+                        return Some("the scratch returned by finalize lies outside the scratch buffer".into());
+                    }
+                    if l > 0 {
+                        all.push((p, l));
+                    }
+                }
+                all.sort();
+                for w in all.windows(2) {
+                    if w[0].0 + w[0].1 > w[1].0 {
+                        return Some("borrowed slots / returned scratch overlap after a failed value on the same Deserializer".into());
+                    }
+                }
+                None
+            }
+            macro_rules! run {
+                ($flav:expr, $pos:expr) => {{
+                    let mut out = String::from("deseq");
+                    let mut de = postcard::Deserializer::from_flavor($flav);
+                    let mut failed = false;
+                    let mut slots: Vec<(usize, usize)> = Vec::new();
+                    let mut kept: Vec<(DVal, DVal)> = Vec::new();
+                    for t in &tys {
+                        BORROWS.with(|b| b.borrow_mut().clear());
+                        match with_ty(t, || <DynVal as serde::Deserialize>::deserialize(&mut de)) {
+                            Ok(v) => {
+                                if !failed {
+                                    out.push_str(&format!(" | ok {}", v.0));
+                                }
+                                BORROWS.with(|b| slots.extend(b.borrow().iter().map(|(p, l, _)| (*p, *l))));
+                                // keep the decoded value (it borrows from the scratch) and a deep copy taken NOW
+                                kept.push((v.0.clone(), v.0));
+                            }
+                            Err(e) => {
+                                if !failed {
+                                    out.push_str(&format!(" | err {} | posterr", err_name(&e)));
+                                    failed = true;
+                                }
+                            }
+                        }
+                    }
+                    match de.finalize() {
+                        Ok((rd, rest)) => {
+                            if !failed {
+                                out.push_str(&format!(" | fin delivered={} scratchleft={}", $pos(&rd), rest.len()));
+                            }
+                            if let Some(e) = slots_ok(&slots, Some((rest.as_ptr() as usize, rest.len())), sbase, scratch_len) {
+                                return Err(e);
+                            }
+                        }
+                        Err(_) => {
+                            if !failed {
+                                out.push_str(" | fin err");
+                            }
+                            if let Some(e) = slots_ok(&slots, None, sbase, scratch_len) {
+                                return Err(e);
+                            }
+                        }
+                    }
+                    Ok(out)
+                }};
+            }
+            let r: Result<Result<String, String>, ()> = guard(|| {
+                let scratch: &mut [u8] = scratch_pages.slice_mut();
+                if adapter.starts_with("std") {
+                    run!(postcard::de_flavors::io::io::IOReader::new(rd, scratch), |r: &SchedReader| r.pos)
+                } else {
+                    run!(postcard::de_flavors::io::eio::EIOReader::new(EioR(rd), scratch), |r: &EioR| r.0.pos)
+                }
+            });
+            Some(match r {
+                Err(()) => "FAIL panic while one Deserializer over a byte reader was used for several values".into(),
+                Ok(Err(e)) => {
+                    ctx.oracle_fail(e.clone());
+                    format!("FAIL {}", e)
+                }
+                Ok(Ok(s)) => s,
+            })
+        }
         "rio" => {
             let adapter = args.first()?.atom()?;
             let fault = opt_num(args.get(1)?)?;
@@ -210,12 +336,12 @@ pub fn eval(ctx: &mut Ctx, op: &str, args: &[Sexp]) -> Option<String> {
             let stream = unhex(args.get(6)?.atom()?)?;
             let mut scratch_pages = Pages::new(&vec![0xEEu8; scratch_len], true);
             let sbase = scratch_pages.slice().as_ptr() as usize;
-            let rd = SchedReader { data: stream.clone(), pos: 0, fault, rng: Rng::new(sched), whole: sched == 0, one: sched == 1 };
+            let rd = SchedReader { data: stream.clone(), pos: 0, fault, rng: Rng::new(sched), whole: sched == 0, one: sched == 1, transient: adapter.ends_with("tr") };
             let r = guard(|| with_ty(&t, || {
                 let mut out = String::from("rio");
                 let mut scratch: &mut [u8] = scratch_pages.slice_mut();
                 let mut slice_cursor = 0usize; // slice decoding of the same stream, message by message
-                if adapter == "std" {
+                if adapter.starts_with("std") {
                     let mut rd = rd;
                     for _ in 0..count {
                         BORROWS.with(|b| b.borrow_mut().clear());
@@ -341,7 +467,65 @@ pub fn need(v: &DVal) -> usize {
     }
 }
 
+/// one Deserializer over a byte reader, several values in a row, used again after a value failed
+pub fn gen_deseq(r: &mut Rng, thorough: bool, out: &mut Vec<String>) {
+    let n = if thorough { 3000 } else { 300 };
+    let pool = [
+        DTy::Str,
+        DTy::Bytes,
+        DTy::F64,
+        DTy::U(8),
+        DTy::Char,
+        DTy::F32,
+        DTy::Tuple(vec![DTy::Str, DTy::U(16)]),
+        DTy::Option(Box::new(DTy::Bytes)),
+        DTy::U(32),
+    ];
+    for i in 0..n {
+        let k = 2 + r.below(5) as usize;
+        let tys: Vec<DTy> = (0..k).map(|_| pool[r.below(pool.len() as u64) as usize].clone()).collect();
+        let vals: Vec<DVal> = tys.iter().map(|t| gen_val(r, t, false)).collect();
+        let mut stream = Vec::new();
+        for v in &vals {
+            match postcard::to_allocvec(v) {
+                Ok(b) => stream.extend(b),
+                Err(_) => {}
+            }
+        }
+        let needs: Vec<usize> = vals.iter().map(need).collect();
+        let total: usize = needs.iter().sum();
+        let adapter = if i % 2 == 0 { "std" } else { "eio" };
+        let tystr = tys.iter().map(|t| t.to_string()).collect::<Vec<_>>().join(" ");
+        // scratch sizes at which exactly one of the middle values does not fit while later ones do
+        let mut scr = vec![total, total + 3, 0, 1];
+        let mut acc = 0usize;
+        for nd in &needs {
+            if *nd > 0 {
+                scr.push(acc + nd - 1);
+                scr.push(acc + nd / 2);
+            }
+            acc += nd;
+        }
+        scr.sort();
+        scr.dedup();
+        for sc in scr {
+            out.push(format!("deseq {} none {} {} {} {}", adapter, sc, r.below(3), hex(&stream), tystr));
+        }
+        // reader faults inside the stream, and malformed / truncated input in the middle
+        if !stream.is_empty() {
+            let f = r.below(stream.len() as u64) as usize;
+            out.push(format!("deseq {} {} {} {} {} {}", adapter, f, total, r.below(3), hex(&stream), tystr));
+            let mut c = stream.clone();
+            let kx = r.below(c.len() as u64) as usize;
+            c[kx] = r.next() as u8;
+            out.push(format!("deseq {} none {} {} {} {}", adapter, total, 1, hex(&c), tystr));
+            out.push(format!("deseq {} none {} {} {} {}", adapter, total, 1, hex(&stream[..kx]), tystr));
+        }
+    }
+}
+
 pub fn gen_c11(r: &mut Rng, thorough: bool, out: &mut Vec<String>) {
+    gen_deseq(r, thorough, out);
     let n = if thorough { 4000 } else { 250 };
     for i in 0..n {
         let t = loop {
@@ -392,6 +576,8 @@ pub fn gen_c11(r: &mut Rng, thorough: bool, out: &mut Vec<String>) {
         let faults: Vec<usize> = if stream.len() <= 40 { (0..=stream.len() + 1).collect() } else { (0..stream.len() + 2).step_by(7).collect() };
         for f in faults {
             out.push(format!("rio {} {} {} {} {} {} {}", adapter, f, total_need, r.below(4), k, t, hex(&stream)));
+            // the same fault, TRANSIENT (one error, then the reader carries on), with ample scratch
+            out.push(format!("rio {}tr {} {} {} {} {} {}", adapter, f, total_need + 16, r.below(4), k, t, hex(&stream)));
         }
         // trailing bytes on the stream must be left unread; asking for one message too many hits EOF
         let mut ext = stream.clone();
